@@ -309,13 +309,25 @@ func runC18Plain(transport string) *Violation {
 	} else {
 		cl = &RigClient{ID: "custom"}
 		var hc struct {
-			Call func(ctx context.Context, tok string, plan Plan) (Result, error)
+			Call  func(ctx context.Context, tok string, plan Plan) (Result, error)
+			NoCtx func(tok string, plan Plan) (Result, error) `rpc_method:"Tok.Call"`
 		}
+		// a transport that honours the context it is given, as an http-based one would
 		cl.closer, err = jsonrpc.NewCustomClient("Tok", []interface{}{&hc}, func(ctx context.Context, body []byte) (io.ReadCloser, error) {
 			var buf bytes.Buffer
-			rig.RPC.HandleRequest(ctx, bytes.NewReader(body), &buf)
-			return io.NopCloser(&buf), nil
+			done := make(chan struct{})
+			go func() {
+				defer close(done)
+				rig.RPC.HandleRequest(context.WithoutCancel(ctx), bytes.NewReader(body), &buf)
+			}()
+			select {
+			case <-done:
+				return io.NopCloser(&buf), nil
+			case <-ctx.Done():
+				return nil, ctx.Err()
+			}
 		})
+		cl.C.NoCtx = hc.NoCtx
 		cl.C.Call = hc.Call
 	}
 	if err != nil {
@@ -324,6 +336,10 @@ func runC18Plain(transport string) *Violation {
 	var ps []*Pending
 	for i := 0; i < 3; i++ {
 		ps = append(ps, rig.Go(cl, "call", rig.Tok("p"), Plan{Gate: true, Size: i * 3000}))
+	}
+	// calls through functions without a context parameter
+	for i := 0; i < 2; i++ {
+		ps = append(ps, rig.Go(cl, "noctx", rig.Tok("pn"), Plan{Gate: true, Size: i * 5000}))
 	}
 	for _, p := range ps {
 		rig.W.WaitStarted(p.Tok, 2*time.Second)
@@ -367,7 +383,7 @@ func c18NT(c c18Case) (bool, []string) {
 	return c.TrigPoint != "end", cl
 }
 
-const c18Rule = "mixed workload A (a call whose answer cannot be decoded and which therefore stays in flight, paced stream, gated calls awaiting responses, 40 kB multi-frame response, burst of queued calls and a notification, second subscription) and B (A plus a connection reset with refused redials, calls issued between connections incl. retry-tagged, heal); a counting pass records how often each client-side yield point (and each dial) occurs, then the closer is fired at occurrence k of point p with the library goroutine held for 1 ms (and, on the frame-consuming paths, a variant held until the closer has returned, at most 30 ms): every (p,k) in thorough, a stratified sample in quick, plus rapid-drawn (p,k) with delays at exit.exiting-closed / stop.begin / closechans.begin; http and custom clients are closed with calls in progress. Non-trivial = close fired from inside a yield point (not at the quiescent end); distinct by descriptor hash"
+const c18Rule = "mixed workload A (a call whose answer cannot be decoded and which therefore stays in flight, paced stream, gated calls awaiting responses, 40 kB multi-frame response, burst of queued calls and a notification, second subscription) and B (A plus a connection reset with refused redials, calls issued between connections incl. retry-tagged, heal); a counting pass records how often each client-side yield point (and each dial) occurs, then the closer is fired at occurrence k of point p with the library goroutine held for 1 ms (and, on the frame-consuming paths, a variant held until the closer has returned, at most 30 ms): every (p,k) in thorough, a stratified sample in quick, plus rapid-drawn (p,k) with delays at exit.exiting-closed / stop.begin / closechans.begin; http and custom clients are closed with calls (with and without a context parameter) in progress. Non-trivial = close fired from inside a yield point (not at the quiescent end); distinct by descriptor hash"
 
 func TestC18(t *testing.T) {
 	rec := NewRec("C18", c18Rule)
